@@ -648,6 +648,16 @@ func (w *qWorld) onMessage(co *consumer, f Frame) {
 			if x.Answer != "" || x.Voided || lastDel(x.mc) != x || x.maybeAnswered {
 				continue
 			}
+			if x.Step == cm.VoidStep && cm.VoidSeq != 0 {
+				// handed out in the very epoch in which the channel was emptied: whether before it (then it
+				// is gone, and rightly no longer counted) or after it is not known
+				continue
+			}
+			if sl, ok := co.slack(); ok && !cm.VoidAt.IsZero() && !x.At.After(cm.VoidAt.Add(sl)) && x.Step > cm.VoidStep {
+				// seen after the channel was emptied, but within this connection's flush allowance: the frame may
+				// have been in the output buffer since before the empty (then the message is gone)
+				continue
+			}
 			dl, ok := w.deadlineLower(x)
 			if !ok {
 				bounded = false
@@ -880,6 +890,15 @@ func (w *qWorld) checkStats() {
 				w.violate("C13", "client-in-flight-leak", "channel %s/%s has %d messages in flight but its connections count %d", t.TopicName, c.ChannelName, c.InFlightCount, sum)
 				w.violate("C03", "client-in-flight-leak", "channel %s/%s has %d messages in flight but its connections count %d", t.TopicName, c.ChannelName, c.InFlightCount, sum)
 				w.violate("C08", "client-in-flight-leak", "channel %s/%s has %d messages in flight but its connections count %d", t.TopicName, c.ChannelName, c.InFlightCount, sum)
+			}
+			// ... and not fewer either, once the messages that were in flight to connections that have ended
+			// must have timed out: every message in flight belongs to a connected consumer then, and that
+			// consumer counts it (a count that lost a message lets the connection receive beyond its RDY)
+			if cm := w.chans[t.TopicName+"/"+c.ChannelName]; cm != nil && cm.Exists && !cm.Uncertain && sum < c.InFlightCount &&
+				time.Since(cm.lastConnEnd) > ms(w.cfg.MaxMsgTimeoutMs)+w.lateSlack() && time.Since(w.lastRestartAt) > ms(w.cfg.MaxMsgTimeoutMs)+w.lateSlack() {
+				w.violate("C13", "client-in-flight-undercount", "channel %s/%s has %d messages in flight, its connected consumers count only %d, and no consumer connection has ended for %v", t.TopicName, c.ChannelName, c.InFlightCount, sum, time.Since(cm.lastConnEnd))
+				w.violate("C03", "client-in-flight-undercount", "channel %s/%s has %d messages in flight, its connected consumers count only %d, and no consumer connection has ended for %v", t.TopicName, c.ChannelName, c.InFlightCount, sum, time.Since(cm.lastConnEnd))
+				w.violate("C08", "client-in-flight-undercount", "channel %s/%s has %d messages in flight, its connected consumers count only %d, and no consumer connection has ended for %v", t.TopicName, c.ChannelName, c.InFlightCount, sum, time.Since(cm.lastConnEnd))
 			}
 		}
 	}
